@@ -6,6 +6,11 @@
 //                from the request DESCRIPTOR (never from the request object), field by field, then serialized.
 //                positive: r.matches_response(mirror) ; negative: every byte of every matched field x 255 other values.
 //                plus, for IPv4 requests, ICMP errors from strangers quoting a different packet.
+//                Network header variants: IPv4 without options / with stream-id (24-byte header) / NOOP + record-route (32),
+//                IPv6 without / with one (8 bytes) / with two (8 + 16 bytes) extension headers; the mirror carries the same.
+//   part "hist": run first in every process: the base request of every (stack, header variant) is judged in ascending
+//                header-size order, in descending order, then the very first one again; every verdict must be what the
+//                oracle says and identical in all passes (matchers must not depend on the history of earlier calls).
 //   part "safe": every concrete PDU class (default, and with an inner layer) and every functional stack x every buffer
 //                length 0..128 x {zeros, ones, truncated/padded seed, single-byte substitutions near every layer start},
 //                each in an exact-size malloc block, under ASan+UBSan.
@@ -50,10 +55,32 @@ struct Req {
     IPv6Address sip6, dip6;
     uint16_t sport, dport, id, seq, dnsid;
     int plen;
+    int nopt;      // network header variant: 0 plain; IPv4: 1 stream-id, 2 NOOP + record-route; IPv6: 1 dest-opts, 2 hop-by-hop + dest-opts
 };
 
 static std::string stack_name(const Req& r) {
     return std::string(link_name[r.link]) + "/ip" + (r.net == 4 ? "4" : "6") + "/" + l4_name[r.l4];
+}
+// size of the network header of request and mirror (both carry the same options / extension headers)
+static int net_hdr(const Req& r) {
+    static const int v4[] = {20, 24, 32}, v6[] = {40, 48, 64};
+    return r.net == 4 ? v4[r.nopt] : v6[r.nopt];
+}
+// options are set through the documented setters; the route / padding contents differ between request and mirror
+static void add_net_options(IP& ip, int nopt, bool mirror) {
+    if (nopt == 1) ip.stream_identifier(mirror ? 0x0708 : 0x0102);
+    if (nopt == 2) {
+        ip.add_option(IP::option(IP::option_identifier(IP::NOOP, IP::CONTROL, 0)));
+        IP::record_route_type rr(mirror ? 12 : 4);
+        rr.routes.push_back(mirror ? "192.0.2.1" : "0.0.0.0"); rr.routes.push_back(mirror ? "192.0.2.2" : "0.0.0.0");
+        ip.record_route(rr);
+    }
+}
+static void add_net_options(IPv6& ip, int nopt, bool mirror) {
+    uint8_t padn[14] = {1, 4, 0, 0, 0, 0, 1, 6, 0, 0, 0, 0, 0, 0};   // PadN options: 6 bytes -> 8-byte header, 14 -> 16-byte header
+    if (mirror) padn[2] = 0;
+    if (nopt == 1) ip.add_header(IPv6::ext_header(IPv6::DESTINATION_OPTIONS, 6, padn));
+    if (nopt == 2) { ip.add_header(IPv6::ext_header(IPv6::HOP_BY_HOP, 6, padn)); ip.add_header(IPv6::ext_header(IPv6::DESTINATION_OPTIONS, 14, padn)); }
 }
 static std::string req_str(const Req& r) {
     std::string s = "link=" + str(r.link) + " net=" + str(r.net) + " l4=" + str(r.l4);
@@ -65,6 +92,7 @@ static std::string req_str(const Req& r) {
     if (r.l4 >= L4_ICMP_ECHO && r.l4 <= L4_ICMP6_ECHO) s += " id=" + str(r.id) + " seq=" + str(r.seq);
     if (r.l4 == L4_DNS) s += " dnsid=" + str(r.dnsid);
     s += " plen=" + str(r.plen);
+    if (r.nopt) s += " nopt=" + str(r.nopt);
     return s;
 }
 static Req req_parse(std::map<std::string, std::string>& kv) {
@@ -76,7 +104,7 @@ static Req req_parse(std::map<std::string, std::string>& kv) {
     if (r.net == 4) { r.sip4 = IPv4Address(kv["sip"]); r.dip4 = IPv4Address(kv["dip"]); }
     else { r.sip6 = IPv6Address(kv["sip"]); r.dip6 = IPv6Address(kv["dip"]); }
     r.sport = num(kv["sport"]); r.dport = num(kv["dport"]); r.id = num(kv["id"]); r.seq = num(kv["seq"]);
-    r.dnsid = num(kv["dnsid"]); r.plen = num(kv["plen"]);
+    r.dnsid = num(kv["dnsid"]); r.plen = num(kv["plen"]); r.nopt = kv.count("nopt") ? num(kv["nopt"]) : 0;
     return r;
 }
 
@@ -94,8 +122,8 @@ static std::unique_ptr<PDU> build_request(const Req& r) {
     std::unique_ptr<PDU> top;
     if (r.link != LINK_NONE) push(top, EthernetII(r.dmac, r.smac));
     if (r.link == LINK_DOT1Q) { Dot1Q q(r.vid); q.priority(r.pcp); q.cfi(r.cfi); push(top, q); }
-    if (r.net == 4) { IP ip(r.dip4, r.sip4); ip.ttl(64); ip.id(0x1234); push(top, ip); }
-    else { IPv6 ip(r.dip6, r.sip6); ip.hop_limit(64); push(top, ip); }
+    if (r.net == 4) { IP ip(r.dip4, r.sip4); ip.ttl(64); ip.id(0x1234); add_net_options(ip, r.nopt, false); push(top, ip); }
+    else { IPv6 ip(r.dip6, r.sip6); ip.hop_limit(64); add_net_options(ip, r.nopt, false); push(top, ip); }
     switch (r.l4) {
         case L4_TCP: { TCP t(r.dport, r.sport); t.flags(TCP::SYN); t.seq(0x01020304); t.window(1000); push(top, t);
                        if (r.plen) push(top, RawPDU(pattern(r.plen, 1))); break; }
@@ -126,8 +154,8 @@ static std::unique_ptr<PDU> build_mirror_pdu(const Req& r) {
         push(top, e);
     }
     if (r.link == LINK_DOT1Q) { Dot1Q q; q.id(r.vid); q.priority(r.pcp); q.cfi(r.cfi); push(top, q); }
-    if (r.net == 4) { IP ip; ip.dst_addr(r.sip4); ip.src_addr(r.dip4); ip.ttl(57); ip.id(0x4321); ip.tos(0x10); push(top, ip); }
-    else { IPv6 ip; ip.dst_addr(r.sip6); ip.src_addr(r.dip6); ip.hop_limit(57); ip.flow_label(0x12345); push(top, ip); }
+    if (r.net == 4) { IP ip; ip.dst_addr(r.sip4); ip.src_addr(r.dip4); ip.ttl(57); ip.id(0x4321); ip.tos(0x10); add_net_options(ip, r.nopt, true); push(top, ip); }
+    else { IPv6 ip; ip.dst_addr(r.sip6); ip.src_addr(r.dip6); ip.hop_limit(57); ip.flow_label(0x12345); add_net_options(ip, r.nopt, true); push(top, ip); }
     switch (r.l4) {
         case L4_TCP: { TCP t; t.dport(r.sport); t.sport(r.dport); t.flags(TCP::SYN | TCP::ACK); t.seq(0x0a0b0c0d); t.ack_seq(0x01020305);
                        t.window(4242); push(top, t); break; }
@@ -156,7 +184,7 @@ struct Layout { int link_off, vlan_off, net_off, l4_off; };
 static Layout layout(const Req& r) {
     Layout l; l.link_off = r.link == LINK_NONE ? -1 : 0; l.vlan_off = r.link == LINK_DOT1Q ? 14 : -1;
     l.net_off = r.link == LINK_NONE ? 0 : r.link == LINK_ETH ? 14 : 18;
-    l.l4_off = l.net_off + (r.net == 4 ? 20 : 40);
+    l.l4_off = l.net_off + net_hdr(r);
     return l;
 }
 static bool mac_unicast(const Mac& m) { return (m[0] & 1) == 0; }
@@ -211,9 +239,14 @@ static std::string check_mirror_layout(const Req& r, const Bytes& m) {
     }
     if (r.net == 4) {
         uint32_t s = r.dip4, d = r.sip4;
-        if (m[l.net_off] != 0x45 || memcmp(&m[l.net_off + 12], &s, 4) || memcmp(&m[l.net_off + 16], &d, 4)) return "ip";
+        if (m[l.net_off] != (0x40 | net_hdr(r) / 4) || memcmp(&m[l.net_off + 12], &s, 4) || memcmp(&m[l.net_off + 16], &d, 4)) return "ip";
     } else {
         if ((m[l.net_off] >> 4) != 6 || memcmp(&m[l.net_off + 8], r.dip6.begin(), 16) || memcmp(&m[l.net_off + 24], r.sip6.begin(), 16)) return "ip6";
+        // RFC 8200 chain: next-header octets lead to the transport at l4_off
+        uint8_t proto = r.l4 == L4_TCP ? 6 : r.l4 == L4_ICMP6_ECHO ? 58 : 17;
+        int o6 = l.net_off + 40; uint8_t nh = m[l.net_off + 6];
+        while (o6 < l.l4_off) { if (nh != 0 && nh != 60) return "ip6-chain"; nh = m[o6]; o6 += (m[o6 + 1] + 1) * 8; }
+        if (o6 != l.l4_off || nh != proto) return "ip6-chain";
     }
     int o = l.l4_off;
     switch (r.l4) {
@@ -339,9 +372,11 @@ static int run_request(const Req& r, const std::map<std::string, std::string>* o
         if (verbose) printf("violation reproduced: %s\n  %s\n", sig.c_str(), detail.c_str());
     };
     // ---- positive
+    int first_pos = -1;
     if (!only || want == "pos") {
         Block b(m.data(), m.size());
         Outcome o = call_match(*req, b.p, (uint32_t)b.n, st);
+        first_pos = o;
         R.count("evaluations"); R.count("positive_evaluations");
         R.dist("distinct_outcomes", fnv("pos" + str((int)o)));
         std::string kase = "part=func " + rs + " test=pos";
@@ -359,8 +394,8 @@ static int run_request(const Req& r, const std::map<std::string, std::string>* o
             const Field& f = fields[fi];
             if (only && f.name != only->at("field")) continue;
             if (f.skip) { R.count("negative_fields_skipped_nonunicast_destination"); continue; }
-            R.dist("distinct_nontrivial", fnv(st + "|" + f.name + "|" + hex(&m[f.off], f.len)));
-            R.dist("distinct_perturbed_fields", fnv(st + "|" + f.name));
+            R.dist("distinct_nontrivial", fnv(st + "+" + str(net_hdr(r)) + "|" + f.name + "|" + hex(&m[f.off], f.len)));
+            R.dist("distinct_perturbed_fields", fnv(st + "+" + str(net_hdr(r)) + "|" + f.name));
             for (int k = 0; k < f.len; ++k) {
                 int off = f.off + k;
                 if (only && only->count("off") && num(only->at("off")) != off) continue;
@@ -400,6 +435,16 @@ static int run_request(const Req& r, const std::map<std::string, std::string>* o
             R.count("negative_fields");
         }
         R.dist("distinct_outcomes", fnv("neg0"));
+    }
+    // ---- the mirror once more after all the other calls on this request object: the verdict must not have changed
+    if (!only || want == "pos") {
+        Block b(m.data(), m.size());
+        Outcome o = call_match(*req, b.p, (uint32_t)b.n, st);
+        R.count("evaluations"); R.count("positive_reevaluations");
+        if (first_pos == O_TRUE && o != O_TRUE)
+            report(o == O_BAD ? g_bad : "history:verdict-changed-within-request:" + st,
+                   "the mirrored reply was accepted at first and is rejected after the negative evaluations on the same request object",
+                   "part=func " + rs + " test=all");
     }
     // ---- ICMP errors from strangers about a different packet (IPv4 only)
     if (r.net == 4 && (!only || want == "icmperr")) {
@@ -499,8 +544,8 @@ static const int* plens(int l4, int& n) {
     }
 }
 
-// group sizes (full, reduced) for a stack; groups: 0 link, 1 vlan, 2 net, 3 l4 identifiers, 4 dns id, 5 payload length
-static void group_sizes(int link, int net, int l4, size_t full[6], size_t red[6]) {
+// group sizes (full, reduced) for a stack; groups: 0 link, 1 vlan, 2 net, 3 l4 identifiers, 4 dns id, 5 payload length, 6 network header variant
+static void group_sizes(int link, int net, int l4, size_t full[7], size_t red[7]) {
     const Groups& g = groups();
     full[0] = link == LINK_NONE ? 1 : g.link.size();  red[0] = link == LINK_NONE ? 1 : g.r_link;
     full[1] = link == LINK_DOT1Q ? g.vlan.size() : 1; red[1] = link == LINK_DOT1Q ? g.r_vlan : 1;
@@ -509,9 +554,10 @@ static void group_sizes(int link, int net, int l4, size_t full[6], size_t red[6]
     full[4] = l4 == L4_DNS ? g.dnsids.size() : 1; red[4] = l4 == L4_DNS ? g.r_dns : 1;
     int n; plens(l4, n);
     full[5] = n; red[5] = n;
+    full[6] = 3; red[6] = 3;      // network header variants
 }
 
-static Req make_req(int link, int net, int l4, const size_t ix[6]) {
+static Req make_req(int link, int net, int l4, const size_t ix[7]) {
     const Groups& g = groups();
     Req r = Req();
     r.link = link; r.net = net; r.l4 = l4;
@@ -524,6 +570,7 @@ static Req make_req(int link, int net, int l4, const size_t ix[6]) {
     if (l4 == L4_DNS) r.dnsid = g.dnsids[ix[4]];
     int n; const int* pl = plens(l4, n);
     r.plen = pl[ix[5]];
+    r.nopt = (int)ix[6];
     return r;
 }
 
@@ -539,29 +586,118 @@ template <class F>
 static void for_each_request(bool thorough, F f) {
     for (int link = 0; link < 3; ++link) for (int net = 4; net <= 6; net += 2) for (int l4 = 0; l4 < L4_COUNT; ++l4) {
         if (!stack_valid(net, l4)) continue;
-        size_t full[6], red[6];
+        size_t full[7], red[7];
         group_sizes(link, net, l4, full, red);
-        for (unsigned sub = 0; sub < 64; ++sub) {
+        for (unsigned sub = 0; sub < 128; ++sub) {
             int bits = __builtin_popcount(sub);
             if (bits > (thorough ? 3 : 2)) continue;
             const size_t* lim = (bits <= 1 || (bits == 2 && thorough)) ? full : red;
             bool ok = true;
-            for (int g = 0; g < 6; ++g) if ((sub >> g & 1) && lim[g] < 2) ok = false;
+            for (int g = 0; g < 7; ++g) if ((sub >> g & 1) && lim[g] < 2) ok = false;
             if (!ok) continue;
-            size_t ix[6] = {0, 0, 0, 0, 0, 0};
-            for (int g = 0; g < 6; ++g) if (sub >> g & 1) ix[g] = 1;
+            size_t ix[7] = {0, 0, 0, 0, 0, 0, 0};
+            for (int g = 0; g < 7; ++g) if (sub >> g & 1) ix[g] = 1;
             for (;;) {
                 f(make_req(link, net, l4, ix));
                 int g = 0;
-                for (; g < 6; ++g) {
+                for (; g < 7; ++g) {
                     if (!(sub >> g & 1)) continue;
                     if (++ix[g] < lim[g]) break;
                     ix[g] = 1;
                 }
-                if (g == 6) break;
+                if (g == 7) break;
             }
         }
     }
+}
+
+
+// ------------------------------------------------------------------ call-history part
+// Matchers are const functions of (request, reply bytes).  Anything remembered from an earlier call (a function-local static, a
+// cached header size, a lazily filled table) makes the verdict depend on what the process matched before.  This part is the
+// FIRST thing a job does, so the first probe really is the first matcher call of the process; every job starts at a different probe.
+static std::vector<Req> hist_probes() {
+    std::vector<Req> p;
+    for (int size_rank = 0; size_rank < 3; ++size_rank)          // ascending network header size: 20/40, 24/48, 32/64
+        for (int link = 0; link < 3; ++link) for (int net = 4; net <= 6; net += 2) for (int l4 = 0; l4 < L4_COUNT; ++l4) {
+            if (!stack_valid(net, l4)) continue;
+            size_t ix[7] = {0, 0, 0, 0, 0, 0, (size_t)size_rank};
+            p.push_back(make_req(link, net, l4, ix));
+        }
+    return p;
+}
+
+// positive + a reduced negative family of one probe, judged by the same oracle as the functional part; returns the verdict vector's hash
+static uint64_t probe_eval(const Req& r, const std::string& kase, const std::string& where, int& bad, bool verbose) {
+    std::string st = stack_name(r) + (r.nopt ? "+hdr" + str(net_hdr(r)) : "");
+    std::unique_ptr<PDU> req = build_request(r);
+    Bytes req_wire = req->serialize();
+    Bytes m = build_mirror_pdu(r)->serialize();
+    std::string lay = check_mirror_layout(r, m);
+    if (!lay.empty()) { R.violation("harness:mirror-layout:" + lay, "mirror wire image does not carry the mirrored values: " + hex(m), "part=func " + req_str(r) + " test=pos"); bad++; return 0; }
+    auto report = [&](const std::string& sig, const std::string& detail) {
+        R.violation(sig, detail + " [" + where + "] request=" + hex(req_wire) + " mirror=" + hex(m), kase); bad++;
+        if (verbose) printf("violation: %s\n  %s [%s]\n  request %s\n", sig.c_str(), detail.c_str(), where.c_str(), req_str(r).c_str());
+    };
+    Block b(m.data(), m.size());
+    uint64_t h = fnv(st);
+    Outcome o = call_match(*req, b.p, (uint32_t)b.n, st);
+    R.count("evaluations"); R.count("history_evaluations");
+    h = fnv(&o, sizeof o, h);
+    if (o == O_BAD) report(g_bad, "during matches_response(mirror)");
+    else if (o != O_TRUE) report("match:mirror-rejected:" + st, "the mirrored reply is rejected");
+    std::vector<Field> fields = matched_fields(r);
+    for (size_t fi = 0; fi < fields.size(); ++fi) {
+        const Field& f = fields[fi];
+        for (int k = 0; k < f.len; ++k) {
+            int off = f.off + k;
+            uint8_t orig = b.p[off], mask = k == 0 ? f.mask : 0xff;
+            uint8_t vals[6] = {(uint8_t)(orig ^ 0x01), (uint8_t)(orig ^ 0x80), (uint8_t)(orig ^ 0xff), 0x00, 0xff, 0x03};
+            for (int vi = 0; vi < 6; ++vi) {
+                bool dup = ((vals[vi] ^ orig) & mask) == 0;
+                for (int vj = 0; vj < vi; ++vj) if (vals[vj] == vals[vi]) dup = true;
+                if (dup) continue;
+                b.p[off] = vals[vi];
+                o = call_match(*req, b.p, (uint32_t)b.n, st);
+                R.count("evaluations"); R.count("history_evaluations");
+                h = fnv(&o, sizeof o, h);
+                if (o == O_BAD) report(g_bad, "reply perturbed at " + str(off));
+                else if (o == O_TRUE && !f.skip)     // fields without an expectation still enter the verdict vector
+                    report("match:stranger-accepted:" + f.name, "reply differing from the mirror in byte " + str(off) + " (" + f.name + ": " +
+                           str((int)orig) + " -> " + str((int)vals[vi]) + ") is accepted");
+            }
+            b.p[off] = orig;
+        }
+    }
+    return h;
+}
+
+static int hist_pass(int rot, bool verbose) {
+    int bad = 0;
+    std::vector<Req> P = hist_probes();
+    size_t n = P.size();
+    std::string kase = "part=hist rot=" + str(rot);
+    std::vector<size_t> order;
+    for (size_t i = 0; i < n; ++i) order.push_back((i + rot) % n);                 // ascending header size, started at probe `rot`
+    for (size_t i = 0; i < n; ++i) order.push_back(order[n - 1 - i]);              // the same probes in the opposite order
+    order.push_back(order[0]);                                                     // and the very first one again
+    std::map<size_t, uint64_t> first_verdicts;
+    for (size_t k = 0; k < order.size(); ++k) {
+        const Req& r = P[order[k]];
+        std::string where = "call-history pass, position " + str(k) + " of " + str(order.size()) + ", first probe of the process: " +
+                            stack_name(P[order[0]]) + " with a " + str(net_hdr(P[order[0]])) + "-byte network header";
+        uint64_t h = probe_eval(r, kase, where, bad, verbose);
+        R.count("history_probes_judged");
+        R.dist("history_distinct_probes", fnv(req_str(r)));
+        if (!first_verdicts.count(order[k])) first_verdicts[order[k]] = h;
+        else if (first_verdicts[order[k]] != h) {
+            bad++;
+            R.violation("history:verdict-depends-on-call-order:" + stack_name(r),
+                        "the same request and the same reply buffers got different verdicts at two points of one process [" + where + "] request: " + req_str(r), kase);
+            if (verbose) printf("violation: verdicts of %s differ between two evaluations in one process\n", req_str(r).c_str());
+        }
+    }
+    return bad;
 }
 
 // ------------------------------------------------------------------ safety part
@@ -617,9 +753,12 @@ static std::vector<Obj>& objects() {
     // every functional stack: base request, seeds = mirror (+ ICMP error, + extension-header variant for IPv6)
     for (int link = 0; link < 3; ++link) for (int net = 4; net <= 6; net += 2) for (int l4 = 0; l4 < L4_COUNT; ++l4) {
         if (!stack_valid(net, l4)) continue;
-        size_t ix[6] = {0, 0, 0, 0, 0, 0};
+      for (int nopt = 0; nopt < 3; ++nopt) {
+        // requests with IP options / IPv6 extension headers: bare stacks with TCP, UDP and echo
+        if (nopt && (link != LINK_NONE || !(l4 == L4_TCP || l4 == L4_UDP || l4 == L4_ICMP_ECHO || l4 == L4_ICMP6_ECHO))) continue;
+        size_t ix[7] = {0, 0, 0, 0, 0, 0, (size_t)nopt};
         Req r = make_req(link, net, l4, ix);
-        Obj* o = add("stack:" + stack_name(r), [r]() -> PDU* { return build_request(r).release(); });
+        Obj* o = add("stack:" + stack_name(r) + (nopt ? "+hdr" + str(net_hdr(r)) : ""), [r]() -> PDU* { return build_request(r).release(); });
         Layout l = layout(r);
         Seed s; s.name = "mirror"; s.wire = build_mirror_pdu(r)->serialize();
         if (l.link_off >= 0) s.starts.push_back(0);
@@ -639,7 +778,7 @@ static std::vector<Obj>& objects() {
             push(top, IP(r.sip4, r.dip4)); { ICMP c(ICMP::DEST_UNREACHABLE); c.code(3); push(top, c); } push(top, RawPDU(quote));
             e.wire = top->serialize();
             o->seeds.push_back(e);
-        } else {
+        } else if (nopt == 0) {
             // the mirror with two extension headers between the IPv6 header and the transport (hand-written wire image)
             Seed e; e.name = "ext-headers"; e.starts = s.starts;
             Bytes w = s.wire;
@@ -652,7 +791,10 @@ static std::vector<Obj>& objects() {
             e.wire = w;
             e.starts.push_back(l.l4_off); e.starts.push_back(l.l4_off + 8); e.starts.push_back(l.l4_off + 24);
             o->seeds.push_back(e);
+        } else {
+            o->seeds.back().starts.push_back(l.net_off + 40);     // start of the first extension header of the mirror
         }
+      }
     }
     // replies for the special objects
     auto find = [&](const std::string& n) -> Obj* { for (auto& o : v) if (o.name == n) return &o; return 0; };
@@ -756,7 +898,17 @@ static void run_job(int job) {
     int nj = A.thorough() ? NJ_THOROUGH : NJ_QUICK;
     uint64_t unit = 0, mine = 0;
     bool cut = false;
-    // ---- safety part first (small), one unit = (object, length)
+    // ---- call-history part: before any other matcher call of this process
+    {
+        uint64_t idx = mine++;
+        int rot = (job * 11) % (int)hist_probes().size();
+        if (!(idx < A.skip || skipped(idx))) {
+            set_case(idx, "hist", "part=hist rot=" + str(rot));
+            hist_pass(rot, false);
+            R.count("history_passes");
+        }
+    }
+    // ---- safety part (small), one unit = (object, length)
     std::vector<Obj>& objs = objects();
     for (size_t oi = 0; oi < objs.size() && !cut; ++oi) {
         std::unique_ptr<PDU> pdu;
@@ -790,7 +942,7 @@ static void run_job(int job) {
         });
     if (cut) R.flags["exhaustive"] = false;
     if (job == 0) {
-        size_t ix[6] = {0, 0, 0, 0, 0, 0};
+        size_t ix[7] = {0, 0, 0, 0, 0, 0, 0};
         Req r = make_req(LINK_DOT1Q, 4, L4_DNS, ix);
         R.sample("{\"request\":" + jstr(req_str(r)) + ",\"request_wire\":" + jstr(hex(build_request(r)->serialize())) + ",\"mirror_wire\":" +
                  jstr(hex(build_mirror_pdu(r)->serialize())) + ",\"negatives\":\"each byte of link.reply-dst, link.reply-src, vlan.id, ip.reply-src, "
@@ -818,6 +970,8 @@ static int replay(const std::string& kase) {
         bool all = kv["kind"] == "all";
         // try both tiers' substitution sets when replaying a whole (object, length) unit
         bad = run_safe(*o, *pdu, num(kv["len"]), all ? false : true, all ? 0 : &kv, !all);
+    } else if (kv["part"] == "hist") {
+        bad = hist_pass(num(kv["rot"]), true);
     } else { printf("bad case string\n"); return 2; }
     for (auto& v : R.violations) printf("  %s  (x%llu)\n", v.first.c_str(), (unsigned long long)v.second.count);
     if (bad) { printf("violation reproduced\n"); return 1; }
